@@ -6,47 +6,18 @@ From BT.Front Require Import Prefix CTypes Escape.
 From BT.Gen Require Import PyFuns.
 Open Scope N_scope.
 
-(* the translated function, character by character *)
-Definition esc1 (c : N) : str := if c =? 92 then [92; 92] else if c =? 34 then [92; 34] else [c].
-
-Lemma escape_dq_flat : forall s, escape_dq s = flat_map esc1 s.
+(* the translated function, character by character, is the reference escaping function
+   (new-line included since the fix: commit in /repo) *)
+Lemma escape_dq_flat : forall s, escape_dq s = escape_spec s.
 Proof.
-  unfold escape_dq, replace_char. induction s as [|c t IH]; [reflexivity|].
-  cbn [flat_map]. rewrite flat_map_app. rewrite IH. f_equal.
-  unfold esc1. destruct (c =? 92) eqn:E1.
+  unfold escape_dq, escape_spec, replace_char. induction s as [|c t IH]; [reflexivity|].
+  cbn [flat_map]. rewrite !flat_map_app. rewrite IH. f_equal.
+  unfold esc1_spec. destruct (c =? 92) eqn:E1.
   - reflexivity.
-  - cbn [flat_map]. destruct (c =? 34); reflexivity.
+  - cbn [flat_map app]. destruct (c =? 34) eqn:E2.
+    + reflexivity.
+    + cbn [flat_map app]. destruct (c =? 10); reflexivity.
 Qed.
-
-Lemma run_escape : forall s out,
-    ~ In 10 s -> run SN (flat_map esc1 s ++ [34]) out = Some (out ++ s).
-Proof.
-  induction s as [|c t IH]; intros out Hn.
-  - cbn. rewrite app_nil_r. reflexivity.
-  - assert (Hc : c <> 10) by (intro K; apply Hn; left; congruence).
-    assert (Ht : ~ In 10 t) by (intro K; apply Hn; right; exact K).
-    cbn [flat_map]. unfold esc1 at 1.
-    destruct (c =? 92) eqn:E1.
-    + apply N.eqb_eq in E1. subst c. cbn [app run step normal fst snd].
-      cbn. rewrite app_nil_r. rewrite (IH (out ++ [92]) Ht). rewrite <- app_assoc. reflexivity.
-    + destruct (c =? 34) eqn:E2.
-      * apply N.eqb_eq in E2. subst c. cbn [app run step normal fst snd].
-        cbn. rewrite app_nil_r. rewrite (IH (out ++ [34]) Ht). rewrite <- app_assoc. reflexivity.
-      * cbn [app run step]. unfold normal. rewrite E2, E1.
-        assert (E3 : (c =? 10) = false) by (apply N.eqb_neq; exact Hc). rewrite E3.
-        cbn [fst snd]. rewrite (IH (out ++ [c]) Ht). rewrite <- app_assoc. reflexivity.
-Qed.
-
-(* every string without a new-line character survives: read_literal ("\"" + escape_dq s + "\"") = s *)
-Theorem escape_roundtrip_partial : forall s, ~ In 10 s -> read_literal (quote (escape_dq s)) = Some s.
-Proof.
-  intros s Hn. unfold read_literal, quote. rewrite escape_dq_flat. apply (run_escape s [] Hn).
-Qed.
-
-(* ... but not every string: a new-line character is copied as is, which the TSDL grammar does not
-   allow inside a string literal *)
-Theorem escape_roundtrip_refuted : exists s, read_literal (quote (escape_dq s)) <> Some s.
-Proof. exists [10]. vm_compute. discriminate. Qed.
 
 (* the full-strength statement holds for the reference escaping function (so the reader is not
    unreasonably strict): kept to show what the repair has to achieve *)
@@ -67,3 +38,7 @@ Qed.
 
 Theorem escape_spec_roundtrip : forall s, read_literal (quote (escape_spec s)) = Some s.
 Proof. intro s. unfold read_literal, quote. apply (run_escape_spec s []). Qed.
+
+(* every string survives: read_literal ("\"" + escape_dq s + "\"") = s *)
+Theorem escape_roundtrip : forall s, read_literal (quote (escape_dq s)) = Some s.
+Proof. intro s. rewrite escape_dq_flat. apply escape_spec_roundtrip. Qed.
